@@ -172,30 +172,36 @@ theorem exchange_allGatherObj (g : List Nat) (xs : List X) (O : X → Obj) :
     simp only [exchange, ho]
     simp
 
-/-- the root `d` is addressed correctly: read as a global rank it is the member with group rank `d`. -/
-def RootOk (g : List Nat) (d : Nat) : Prop := g.contains d = true ∧ g.idxOf d = d
-instance (g : List Nat) (d : Nat) : Decidable (RootOk g d) := by unfold RootOk; exact inferInstance
+/-- torch reads the root `gd` (a GLOBAL rank) as the member with group rank `d`. -/
+def RootOk (g : List Nat) (d gd : Nat) : Prop := g.contains gd = true ∧ g.idxOf gd = d
+instance (g : List Nat) (d gd : Nat) : Decidable (RootOk g d gd) := by unfold RootOk; exact inferInstance
 
-theorem rootCheck_ok (g : List Nat) (d : Nat) (hr : RootOk g d) (xs : List X) (idx : X → Nat)
+/-- in a group without repeated members, `_to_global_rank` of a group rank is read back by torch as
+    that very member. -/
+theorem rootOk_of_nodup (g : List Nat) (hg : g.Nodup) (d : Nat) (hd : d < g.length) :
+    g[d]? = some g[d] ∧ RootOk g d g[d] :=
+  ⟨List.getElem?_eq_getElem hd, List.contains_iff_mem.mpr (List.getElem_mem hd), hg.idxOf_getElem d hd⟩
+
+theorem rootCheck_ok (g : List Nat) (d gd : Nat) (hr : RootOk g d gd) (xs : List X) (idx : X → Nat)
     (hidx : xs.map idx = List.range xs.length) :
-    rootCheck g d (xs.map fun _ => d) (xs.map fun x => idx x == d) = .ok d := by
-  have h1 : (xs.map fun _ => d).all (· == d) = true := by simp
+    rootCheck g gd (xs.map fun _ => gd) (xs.map fun x => idx x == d) = .ok d := by
+  have h1 : (xs.map fun _ => gd).all (· == gd) = true := by simp
   have h3 : (xs.map fun x => idx x == d) = (List.range (xs.map fun x => idx x == d).length).map (· == d) := by
     rw [List.length_map, ← hidx, List.map_map]; rfl
   simp only [rootCheck, h1, hr.1, hr.2, Bool.not_true, Bool.false_eq_true, if_false]
   rw [if_pos (by rw [beq_iff_eq]; exact h3)]
 
-theorem exchange_gather (g : List Nat) (d : Nat) (hr : RootOk g d) (xs : List X) (idx : X → Nat)
+theorem exchange_gather (g : List Nat) (d gd : Nat) (hr : RootOk g d gd) (xs : List X) (idx : X → Nat)
     (hidx : xs.map idx = List.range xs.length) (T : X → Tensor) (dt : DType) (sh : List Nat)
     (h : SameSig xs T dt sh) :
-    exchange g (xs.map fun x => Req.gather d (idx x == d) (T x)) =
+    exchange g (xs.map fun x => Req.gather gd (idx x == d) (T x)) =
       .ok (xs.map fun x => if idx x == d then Resp.tensors (xs.map T) else Resp.unit) := by
   cases xs with
   | nil => rfl
   | cons x xs =>
-    have hg := gathersOf_map (x :: xs) d (fun x => idx x == d) T
+    have hg := gathersOf_map (x :: xs) gd (fun x => idx x == d) T
     have hs := sameSig_of (x :: xs) T dt sh (T x) (h x (List.mem_cons_self ..)) h
-    have hrc := rootCheck_ok g d hr (x :: xs) idx hidx
+    have hrc := rootCheck_ok g d gd hr (x :: xs) idx hidx
     simp only [List.map_cons] at hg hs hrc ⊢
     simp only [exchange, hg]
     simp only [List.map_cons, List.map_map, Function.comp_def, hs, Bool.not_true, Bool.false_eq_true, if_false, hrc]
@@ -203,15 +209,15 @@ theorem exchange_gather (g : List Nat) (d : Nat) (hr : RootOk g d) (xs : List X)
       simpa using hidx.symm
     simp [this, Function.comp_def]
 
-theorem exchange_gatherObj (g : List Nat) (d : Nat) (hr : RootOk g d) (xs : List X) (idx : X → Nat)
+theorem exchange_gatherObj (g : List Nat) (d gd : Nat) (hr : RootOk g d gd) (xs : List X) (idx : X → Nat)
     (hidx : xs.map idx = List.range xs.length) (O : X → Obj) :
-    exchange g (xs.map fun x => Req.gatherObj d (idx x == d) (O x)) =
+    exchange g (xs.map fun x => Req.gatherObj gd (idx x == d) (O x)) =
       .ok (xs.map fun x => if idx x == d then Resp.objs (xs.map O) else Resp.unit) := by
   cases xs with
   | nil => rfl
   | cons x xs =>
-    have hg := gatherObjsOf_map (x :: xs) d (fun x => idx x == d) O
-    have hrc := rootCheck_ok g d hr (x :: xs) idx hidx
+    have hg := gatherObjsOf_map (x :: xs) gd (fun x => idx x == d) O
+    have hrc := rootCheck_ok g d gd hr (x :: xs) idx hidx
     simp only [List.map_cons] at hg hrc ⊢
     simp only [exchange, hg]
     simp only [List.map_cons, List.map_map, Function.comp_def, hrc]
